@@ -10,7 +10,11 @@ for d in sorted(glob.glob('/verif/seeded/C*-*')):
     except Exception: pass
     first = next((l.strip('# ').strip() for l in notes.splitlines() if l.strip()), '')
     det = []
-    for prop, v in m.get('detection', {}).items():
+    cur = m.get('detection_current')
+    if isinstance(cur, dict) and 'note' in cur:
+        det.append(cur['note'])
+        cur = {}
+    for prop, v in (cur if cur is not None else m.get('detection', {})).items():
         keys = sorted({re.sub(r'^\s*(monitor|diff|build)\s+', r'\1:', l).split(' |')[0] for l in v['lines'] if l.startswith(('monitor', 'diff', 'build'))})
         det.append('%s exit=%d %s' % (prop, v['exit'], ', '.join(keys)))
     rows.append('| %s | %s | %s | %s |' % (os.path.basename(d), first[:110].replace('|', '/'), m.get('confirmation', '')[m.get('confirmation', '').find('tests'):].replace('|', '/')[:120], '; '.join(det).replace('|', '/')))
